@@ -1,6 +1,7 @@
 """Property -> rules mapping, level texts, assumptions."""
 from . import entries
-from .rules import canon, facade, flag, floatrule, limbs, macro, structural, table, total_rule, unimpl, witness
+from .rules import (canon, facade, flag, floatrule, limbs, macro, sibling, structural, table, total_rule, unimpl,
+                    variant, witness)
 
 COMMON_ASSUMPTIONS = [
     "rustc's type checker, trait resolution, MIR construction and constant evaluation are correct "
@@ -89,16 +90,16 @@ def rules_with_canon(pid, files, extra=None):
 
 
 def rules_C07(ctx):
-    return total_for("C07", ctx) + [structural.maskkind(ctx), flag.lowlimb(ctx)]
+    return total_for("C07", ctx) + [structural.maskkind(ctx), flag.lowlimb(ctx), variant.run(ctx, "all", ["conv"])]
 
 
-def flag_for(files):
-    return lambda ctx: [flag.flag(ctx, "all", files)]
+def flag_for(files, ops=None):
+    return lambda ctx: [flag.flag(ctx, "all", files)] + ([variant.run(ctx, "all", ops)] if ops else [])
 
 
 def rules_C05(ctx):
     return total_for("C05", ctx) + [canon_for(ctx, {"src/bits.rs"}), flag.flag(ctx, "all", {"src/bits.rs"}),
-                                    flag.lowlimb(ctx)]
+                                    flag.lowlimb(ctx), variant.run(ctx, "all", ["shl", "shr"])]
 
 
 def rules_C09(ctx):
@@ -107,14 +108,14 @@ def rules_C09(ctx):
 
 
 def rules_C13(ctx):
-    return total_for("C13", ctx) + [flag.flag(ctx, "all", {"src/pow.rs"})]
+    return total_for("C13", ctx) + [flag.flag(ctx, "all", {"src/pow.rs"}), variant.run(ctx, "all", ["pow"])]
 
 
 def rules_C20(ctx):
     reps = []
     for cfg in ctx.build_configs(quick=("all",), thorough=("all", "all-norand09", "default")):
         reps.append(facade.run(ctx, cfg))
-    return merge_same_rule(reps) + total_for("C20", ctx, own_only=True)
+    return merge_same_rule(reps) + [sibling.run(ctx)] + total_for("C20", ctx, own_only=True)
 
 
 def rules_C18(ctx):
@@ -142,10 +143,10 @@ def P(pid, clauses, not_decided_short, rules, not_decided):
 
 PROPS = {
     "C01": P("C01", "no panic site is reachable from any add/sub/neg form or operator (R-TOTAL)",
-             "that the carry chain computes the sum", rules_with_canon("C01", {"src/add.rs"}, flag_for({"src/add.rs"})),
+             "that the carry chain computes the sum", rules_with_canon("C01", {"src/add.rs"}, flag_for({"src/add.rs"}, ["add", "sub", "neg"])),
              ["that the limb-wise carry chain computes the sum/difference", "abs_diff's value"]),
     "C02": P("C02", "no panic site is reachable from any mul form, inv_ring, Product (R-TOTAL)",
-             "products, Hensel lifting", rules_with_canon("C02", {"src/mul.rs"}, flag_for({"src/mul.rs", "src/algorithms/mul.rs"})), ["products", "trimming bookkeeping in addmul"]),
+             "products, Hensel lifting", rules_with_canon("C02", {"src/mul.rs"}, flag_for({"src/mul.rs", "src/algorithms/mul.rs"}, ["mul"])), ["products", "trimming bookkeeping in addmul"]),
     "C03": P("C03", "checked_div/checked_rem/checked_next_multiple_of reach the zero-divisor panic only behind a "
              "dominating non-zero test (R-TOTAL, D-zero); no todo!/unimplemented! is reachable from a public item "
              "(R-UNIMPL)", "the Euclidean contract; that no non-zero divisor panics inside the Knuth kernels",
